@@ -905,8 +905,8 @@ func (h *mockHooks) sectionEffect(e *Exec, st *State, m string) {
 		for _, l := range leaves {
 			was := st.ghost["sectcells:"+m+":"+l.Path]
 			now := cellsNow[l.Path]
-			cs = append(cs, Term{fmt.Sprintf("(forall ((i!p Int)) (=> (and (<= 0 i!p) (< i!p %s)) (= (select (select %s %s) (+ %s i!p)) (select (select %s %s) (+ %s i!p)))))",
-				l0.L[2].S, now.S, cur.L[0].S, cur.L[1].S, was.S, l0.L[0].S, l0.L[1].S), SBool})
+			cs = append(cs, Term{fmt.Sprintf("(forall ((i!p Int)) (=> (and (<= 0 i!p) (< i!p %s)) (= (select (select %s %s) %s) (select (select %s %s) %s))))",
+				l0.L[2].S, now.S, cur.L[0].S, CellIdx(cur.L[1], Term{"i!p", SInt}).S, was.S, l0.L[0].S, CellIdx(l0.L[1], Term{"i!p", SInt}).S), SBool})
 		}
 		return And(cs...)
 	}
@@ -957,7 +957,7 @@ func (h *mockHooks) sectionEffect(e *Exec, st *State, m string) {
 						okShape = false
 						break
 					}
-					eqs = append(eqs, Eq(Select(Select(now, cur.L[0]), Add(cur.L[1], l0.L[2])), pl))
+					eqs = append(eqs, Eq(Select(Select(now, cur.L[0]), CellIdx(cur.L[1], l0.L[2])), pl))
 					k++
 				}
 			}
